@@ -150,6 +150,7 @@ class Context:
 
     # ---------------------------------------------------------------- logic
     def assume(self, f):
+        self.n_assume = getattr(self, 'n_assume', 0) + 1
         if f is True:
             return
         if f is False:
